@@ -413,6 +413,15 @@ func TestCheck(t *testing.T) {
 	if err != nil {
 		r.Violation("c02.harness-panic", err.Error(), nil)
 	}
+
+	// (3d) bundles generated or forwarded by a real node, per routing algorithm
+	bubble.SetT(t)
+	algos := []string{"epidemic", "spray", "binary_spray", "prophet", "dtlsr", "sensor-mule"}
+	r.Group("node-produced", len(algos)*r.Pick(4, 40), func(i int, rng *report.Rand) {
+		if err := nodeProduced(r, algos[i%len(algos)], i, rng); err != nil {
+			r.Violation("c02.node-deadlock-or-panic", err.Error(), nil)
+		}
+	})
 }
 
 func fragment(b bpv7.Bundle, mtu int) (fs []bpv7.Bundle, err error, panicked bool) {
